@@ -124,6 +124,10 @@ func planFor(prop string, seed uint64) *Plan {
 		return GenEventLoopPlan(seed)
 	case "C15":
 		return GenCmdCachePlan(seed)
+	case "C13":
+		if seed%3 == 0 {
+			return GenStorePlan(seed)
+		}
 	case "C16":
 		if seed%3 == 0 {
 			return GenLeaderPlan(seed)
